@@ -5,6 +5,7 @@ import (
 	"fmt"
 	"net"
 	"os"
+	"runtime/debug"
 	"strconv"
 	"strings"
 	"sync"
@@ -109,6 +110,7 @@ type c42Listener struct {
 	void     bool
 	curMs    int
 	modeAtReady int
+	gcRestore   func()
 	srv      *vgirpc.Server
 	hookFail atomic.Bool
 	segs     map[int]*vgirpc.ShmSegment
@@ -281,6 +283,9 @@ func c42RecvT(conn net.Conn, d time.Duration) (int64, error) {
 }
 
 func (l *c42Listener) cleanup() {
+	if l.gcRestore != nil {
+		l.gcRestore()
+	}
 	l.hookFail.Store(false)
 	for _, c := range l.conns {
 		_ = c.Close()
@@ -560,17 +565,23 @@ func c42Line(c *Case, l *c42Listener, line string, f []string) string {
 			return "refused"
 		}
 		before := time.Now()
+		// A connection the server forgot to close is eventually closed by the garbage collector's
+		// finalizer, which would hide the defect behind GC timing: keep the collector off while looking.
+		gcOld := debug.SetGCPercent(-1)
+		restoreGC := func() { debug.SetGCPercent(gcOld) }
 		conn, err := net.DialTimeout(l.network(), l.addr, 2*time.Second)
 		if err != nil {
+			restoreGC()
 			return "refused"
 		}
 		res := "hookrefused"
 		leftOpen := false
 		if c42Send(conn, 0) == nil {
+			r0 := time.Now()
 			v, err := c42RecvT(conn, 400*time.Millisecond)
 			if err == nil {
 				res = fmt.Sprintf("ok %d", v) // it was served after all
-			} else if ne, ok := err.(net.Error); ok && ne.Timeout() {
+			} else if time.Since(r0) >= 390*time.Millisecond {
 				// a refused connection must be hung up by the server at once (the client reads EOF)
 				leftOpen = true
 				c.Oracle("refused-connection-left-open", fmt.Sprintf("%q: the serve-start hook refused the connection but the server did not close it (no EOF within 400 ms)", line))
@@ -578,9 +589,11 @@ func c42Line(c *Case, l *c42Listener, line string, f []string) string {
 		}
 		if leftOpen {
 			l.conns[n] = conn // from the client's side it IS still open
+			l.gcRestore = restoreGC // the collector stays off until the end of the case
 			c.Stat("connx")
 			return "leftopen"
 		}
+		restoreGC()
 		_ = conn.Close()
 		if len(l.conns) == 0 {
 			l.lastZero = before
